@@ -112,9 +112,13 @@ func (st *SocketServer) acceptConnection() {
 			}
 			continue
 		}
-		if err = AcceptConnection(conn, &st.ServerConfig, st.secure, st.upstreams); err != nil {
-			log.WithError(err).Errorf("Error accepting connection: %v", err)
-		}
+		// The session handshake reads from the peer; run it off the accept loop so that a silent or slow peer
+		// delays only its own session.
+		go func(conn net.Conn) {
+			if err := AcceptConnection(conn, &st.ServerConfig, st.secure, st.upstreams); err != nil {
+				log.WithError(err).Errorf("Error accepting connection: %v", err)
+			}
+		}(conn)
 	}
 }
 
